@@ -25,7 +25,7 @@ func init() {
 				"for both signs; (C04.ops) inside the arm for operator X every Go operation on the operands is X's Go operator, in all int/uint/float sub-branches; (C04.kinds) under isInt/isUint/" +
 				"isFloat the left operand is read with Int/Uint/Float and the right with toInt/toUint/toFloat (or Float under float promotion, which is !isFloat(left) && isFloat(right)), and " +
 				"comparison/logical evaluators return reflect.ValueOf(<bool>); (C04.lazy) the right operand of &&/|| is evaluated only as the right operand of Go's &&/|| after the left one's " +
-				"truthiness, and ?: evaluates exactly one arm; (C04.lit) number nodes prefer float over int over uint and every literal that is an int/uint is also a float; isTrue is IsValid && !IsZero. (C04.kinds, continued) checkEquality compares two integers as integers and goes to floating point only where an operand is known to be a float. (C04.ladder, continued) every node constructor of the ladder returns the node it allocates, never one of its operands (no folding at parse time).",
+				"truthiness, and ?: evaluates exactly one arm; (C04.lit) number nodes prefer float over int over uint and every literal that is an int/uint is also a float; isTrue is IsValid && !IsZero. (C04.kinds, continued) checkEquality compares two integers as integers and goes to floating point only where an operand is known to be a float. (C04.ladder, continued) every node constructor of the ladder returns the node it allocates, never one of its operands (no folding at parse time). (C04.kinds result-computed) after both operands were evaluated, the additive and multiplicative evaluators return only the value of a Go arithmetic/concatenation expression (`reflect.ValueOf(a <op> b)`, directly or through the variable it was stored in); returning an operand as it came (`\"\" + x` → x) changes the kind of the result. (C04.ladder, continued) the operator set of a precedence level is obtained by evaluating the loop condition for every token constant (comparisons, &&, ||, !, single-return predicate helpers), not by matching its text. (C04.lazy, continued) which operand of ?: an evaluation concerns is followed through locals.",
 			NotDecided:  "numeric values, overflow, float formatting, checkEquality's cross-type results, string→number coercions in toInt/toUint/toFloat.",
 			Assumptions: []string{"Go's own operator semantics"},
 			Trusted:     commonTrusted,
@@ -68,66 +68,118 @@ func itemConsts(p *an.Prog) (byName map[string]int64, byVal map[int64]string) {
 	return
 }
 
-// tokenSet expands a loop condition over `<x>.typ` into the set of token names it accepts.
+// tokenSet expands a condition over one token-type expression (`<x>.typ`) into the set of token names it accepts,
+// by evaluating it for every item constant: comparisons with constants, &&, ||, !, and calls of module predicates
+// that are a single `return <condition over the parameter>`.
 func tokenSet(p *an.Prog, info *types.Info, cond ast.Expr) ([]string, bool) {
-	byName, byVal := itemConsts(p)
-	cond = an.Unparen(cond)
-	b, ok := cond.(*ast.BinaryExpr)
-	if !ok {
-		return nil, false
+	_, byVal := itemConsts(p)
+	var vals []int64
+	for v := range byVal {
+		vals = append(vals, v)
 	}
-	name := func(e ast.Expr) (string, bool) {
-		if id, ok := an.Unparen(e).(*ast.Ident); ok {
-			if _, isC := byName[id.Name]; isC {
-				return id.Name, true
-			}
-		}
-		return "", false
-	}
-	switch b.Op {
-	case token.LOR:
-		l, ok1 := tokenSet(p, info, b.X)
-		r, ok2 := tokenSet(p, info, b.Y)
-		return append(l, r...), ok1 && ok2
-	case token.EQL:
-		if n, ok := name(b.Y); ok {
-			return []string{n}, true
-		}
-	case token.LAND:
-		// x >= A && x <= B
-		lo, hi := int64(-1), int64(-1)
-		for _, side := range []ast.Expr{b.X, b.Y} {
-			sb, ok := an.Unparen(side).(*ast.BinaryExpr)
-			if !ok {
-				return nil, false
-			}
-			n, ok := name(sb.Y)
-			if !ok {
-				return nil, false
-			}
-			switch sb.Op {
-			case token.GEQ:
-				lo = byName[n]
-			case token.GTR:
-				lo = byName[n] + 1
-			case token.LEQ:
-				hi = byName[n]
-			case token.LSS:
-				hi = byName[n] - 1
-			default:
-				return nil, false
-			}
-		}
-		if lo < 0 || hi < lo {
+	sort.Slice(vals, func(i, j int) bool { return vals[i] < vals[j] })
+	var out []string
+	for _, v := range vals {
+		subject := ""
+		t, ok := tokEvalBool(p, info, cond, nil, v, &subject, 0)
+		if !ok {
 			return nil, false
 		}
-		var out []string
-		for v := lo; v <= hi; v++ {
+		if t {
 			out = append(out, byVal[v])
 		}
-		return out, true
 	}
-	return nil, false
+	return out, true
+}
+
+func tokEvalBool(p *an.Prog, info *types.Info, e ast.Expr, env map[types.Object]int64, val int64, subject *string, depth int) (bool, bool) {
+	if depth > 6 {
+		return false, false
+	}
+	switch x := an.Unparen(e).(type) {
+	case *ast.UnaryExpr:
+		if x.Op == token.NOT {
+			t, ok := tokEvalBool(p, info, x.X, env, val, subject, depth)
+			return !t, ok
+		}
+	case *ast.BinaryExpr:
+		switch x.Op {
+		case token.LAND, token.LOR:
+			l, ok1 := tokEvalBool(p, info, x.X, env, val, subject, depth)
+			r, ok2 := tokEvalBool(p, info, x.Y, env, val, subject, depth)
+			if !ok1 || !ok2 {
+				return false, false
+			}
+			if x.Op == token.LAND {
+				return l && r, true
+			}
+			return l || r, true
+		case token.EQL, token.NEQ, token.LSS, token.LEQ, token.GTR, token.GEQ:
+			l, ok1 := tokEvalInt(info, x.X, env, val, subject)
+			r, ok2 := tokEvalInt(info, x.Y, env, val, subject)
+			if !ok1 || !ok2 {
+				return false, false
+			}
+			switch x.Op {
+			case token.EQL:
+				return l == r, true
+			case token.NEQ:
+				return l != r, true
+			case token.LSS:
+				return l < r, true
+			case token.LEQ:
+				return l <= r, true
+			case token.GTR:
+				return l > r, true
+			default:
+				return l >= r, true
+			}
+		}
+	case *ast.CallExpr:
+		g := p.FnByObj[an.Callee(info, x)]
+		if g == nil || g.Body == nil || g.Sig == nil || len(g.Body.List) != 1 || g.Sig.Variadic() || g.Sig.Params().Len() != len(x.Args) {
+			return false, false
+		}
+		ret, ok := g.Body.List[0].(*ast.ReturnStmt)
+		if !ok || len(ret.Results) != 1 {
+			return false, false
+		}
+		genv := map[types.Object]int64{}
+		for i, a := range x.Args {
+			v, ok := tokEvalInt(info, a, env, val, subject)
+			if !ok {
+				return false, false
+			}
+			genv[g.Sig.Params().At(i)] = v
+		}
+		inner := ""
+		return tokEvalBool(p, g.Info(), ret.Results[0], genv, val, &inner, depth+1)
+	}
+	return false, false
+}
+
+func tokEvalInt(info *types.Info, e ast.Expr, env map[types.Object]int64, val int64, subject *string) (int64, bool) {
+	e = an.Unparen(e)
+	if tv, ok := info.Types[e]; ok && tv.Value != nil {
+		v, ok := constant.Int64Val(constant.ToInt(tv.Value))
+		return v, ok
+	}
+	if id, ok := e.(*ast.Ident); ok {
+		if v, has := env[an.ObjOf(info, id)]; has {
+			return v, true
+		}
+	}
+	// the one non-constant token-type expression of the condition stands for the token looked at
+	if tv, ok := info.Types[e]; ok && tv.Type != nil && an.TypeName(tv.Type) == "jet.itemType" && env == nil {
+		s := an.Str(e)
+		if *subject == "" {
+			*subject = s
+		}
+		if *subject == s {
+			return val, true
+		}
+	}
+	return 0, false
 }
 
 func runC04(c *an.Ctx) {
@@ -137,6 +189,7 @@ func runC04(c *an.Ctx) {
 	c04sign(c)
 	c04ops(c)
 	c04kinds(c)
+	c04resultComputed(c)
 	c04lazy(c)
 	c04lit(c)
 }
@@ -318,9 +371,10 @@ func c04ladder(c *an.Ctx) {
 		})
 		// newTernaryExpr(…, cond, then, else): cond from the logical level, then/else from two recursive parses in
 		// that order, under a test of the operator token against itemTernary
-		defCall := func(e ast.Expr) (string, token.Pos) {
+		var defCall func(e ast.Expr, depth int) (string, token.Pos)
+		defCall = func(e ast.Expr, depth int) (string, token.Pos) {
 			id, ok := an.Unparen(e).(*ast.Ident)
-			if !ok {
+			if !ok || depth > 3 {
 				return "", token.NoPos
 			}
 			o := an.ObjOf(info, id)
@@ -335,31 +389,51 @@ func c04ladder(c *an.Ctx) {
 				}
 				return true
 			})
+			if name == "" {
+				// a local that only holds another (condition := expression)
+				if defs := an.LocalDefs(f, o); len(defs) == 1 && defs[0] != nil {
+					return defCall(defs[0], depth+1)
+				}
+			}
 			return name, pos
 		}
-		tern := false
-		an.InspectOwn(f, func(n ast.Node) bool {
-			is, ok := n.(*ast.IfStmt)
-			if !ok {
-				return true
-			}
-			b, isBin := an.Unparen(is.Cond).(*ast.BinaryExpr)
-			if !isBin || b.Op != token.EQL || an.Str(b.Y) != "itemTernary" {
-				return true
-			}
-			ast.Inspect(is.Body, func(m ast.Node) bool {
-				if call, ok := m.(*ast.CallExpr); ok && an.CalleeName(info, call) == "(*jet.Template).newTernaryExpr" && len(call.Args) == 5 {
-					c0, _ := defCall(call.Args[2])
-					c1, p1 := defCall(call.Args[3])
-					c2, p2 := defCall(call.Args[4])
-					if c0 == "(*jet.Template).logicalExpression" && c1 == "(*jet.Template).parseExpression" && c2 == "(*jet.Template).parseExpression" && p1 < p2 {
-						tern = true
+		// the ternary node is built only on paths on which the operator token was seen to be `?` (kept in a register:
+		// the token variable is reassigned while the arms are parsed), from the three parses in order
+		byName, _ := itemConsts(p)
+		tern, ternBad := false, false
+		tx := p.NewExplorer(f, an.Hooks{
+			Branch: func(x *an.Explorer, cond ast.Expr, val bool, st *an.State) {
+				branchLeaves(x, cond, val, st, func(e ast.Expr, v bool) {
+					b, isBin := an.Unparen(e).(*ast.BinaryExpr)
+					if !isBin || (b.Op != token.EQL && b.Op != token.NEQ) {
+						return
 					}
+					for _, side := range []ast.Expr{b.X, b.Y} {
+						if tv, has := info.Types[side]; has && tv.Value != nil {
+							if cv, isInt := constant.Int64Val(constant.ToInt(tv.Value)); isInt && cv == byName["itemTernary"] && (b.Op == token.EQL) == v {
+								st.Set("ternary", "1")
+							}
+						}
+					}
+				})
+			},
+			Call: func(x *an.Explorer, call *ast.CallExpr, st *an.State) {
+				if an.CalleeName(info, call) != "(*jet.Template).newTernaryExpr" || len(call.Args) != 5 {
+					return
 				}
-				return true
-			})
-			return true
+				c0, _ := defCall(call.Args[2], 0)
+				c1, p1 := defCall(call.Args[3], 0)
+				c2, p2 := defCall(call.Args[4], 0)
+				if st.Get("ternary") != "" && c0 == "(*jet.Template).logicalExpression" && c1 == "(*jet.Template).parseExpression" && c2 == "(*jet.Template).parseExpression" && p1 < p2 {
+					tern = true
+				} else {
+					ternBad = true
+				}
+			},
 		})
+		tx.Run(nil)
+		c.States += tx.Visited
+		tern = tern && !ternBad && tx.Undecided == ""
 		c.Check(first == "(*jet.Template).logicalExpression" && nRec == 2 && tern, "C04.ladder", "(*Template).parseExpression", f.Pos(), "?: is the loosest level: condition from the logical level, both arms from the top (right-nesting)",
 			"parseExpression does not parse `logical ? expression : expression` with both arms re-entering at the top level")
 	}
@@ -1374,25 +1448,51 @@ func c04lazy(c *an.Ctx) {
 			return
 		}
 		inClause := func(n ast.Node) bool { return cc.Pos() <= n.Pos() && n.End() <= cc.End() }
-		x := p.NewExplorer(f, an.Hooks{Call: func(x *an.Explorer, call *ast.CallExpr, st *an.State) {
-			if !inClause(call) || an.CalleeName(info, call) != "(*jet.Runtime).evalPrimaryExpressionGroup" {
-				return
+		// which operand of the ternary node an expression is: the field itself, or a local last assigned one
+		// (register "arm:<key>")
+		armOf := func(x *an.Explorer, e ast.Expr, st *an.State) string {
+			switch p.FieldKey(info, e) {
+			case "TernaryExprNode.Boolean":
+				return "B"
+			case "TernaryExprNode.Left":
+				return "L"
+			case "TernaryExprNode.Right":
+				return "R"
 			}
-			switch an.Str(call.Args[0]) {
-			case "node.Boolean":
-				st.Set("cond", "1")
-			case "node.Left":
-				st.Add("L", 1)
-				if st.Get("cond") == "" {
-					st.Set("early", "1")
-				}
-			case "node.Right":
-				st.Add("R", 1)
-				if st.Get("cond") == "" {
-					st.Set("early", "1")
+			if id, ok := an.Unparen(e).(*ast.Ident); ok {
+				if k, ok := x.Key(id); ok {
+					return st.Get("arm:" + k)
 				}
 			}
-		}})
+			return ""
+		}
+		x := p.NewExplorer(f, an.Hooks{
+			PreAssign: func(x *an.Explorer, lhs, rhs ast.Expr, stmt ast.Node, st *an.State) {
+				if id, ok := an.Unparen(lhs).(*ast.Ident); ok && rhs != nil && inClause(stmt) {
+					if k, ok := x.Key(id); ok {
+						st.Set("arm:"+k, armOf(x, rhs, st))
+					}
+				}
+			},
+			Call: func(x *an.Explorer, call *ast.CallExpr, st *an.State) {
+				if !inClause(call) || an.CalleeName(info, call) != "(*jet.Runtime).evalPrimaryExpressionGroup" {
+					return
+				}
+				switch armOf(x, call.Args[0], st) {
+				case "B":
+					st.Set("cond", "1")
+				case "L":
+					st.Add("L", 1)
+					if st.Get("cond") == "" {
+						st.Set("early", "1")
+					}
+				case "R":
+					st.Add("R", 1)
+					if st.Get("cond") == "" {
+						st.Set("early", "1")
+					}
+				}
+			}})
 		x.Run(nil)
 		c.States += x.Visited
 		ok, why := true, ""
